@@ -73,7 +73,7 @@ def strategy(draw, tier="quick"):
     for _ in range(n):
         name = draw(st.sampled_from(OPS))
         ops.append([name, draw(st.integers(0, 7)), draw(st.integers(0, 7)), draw(st.integers(0, 10 ** 6)),
-                    draw(st.sampled_from(["int", "neg", "slice", "rev", "list", "mask"])), draw(st.booleans())])
+                    draw(st.sampled_from(["int", "neg", "slice", "rev", "list", "mask", "npint", "npneg", "nparray", "range"])), draw(st.booleans())])
     return {"cell": draw(st.booleans()), "ops": ops}
 
 
@@ -97,6 +97,8 @@ class Entry:
 
     def model_index(self, key):
         e = _copy.copy(self)
+        if isinstance(key, range):
+            key = list(key)
         e.xyz = self.xyz[key]
         e.time = self.time[key]
         e.L = None if self.L is None else self.L[key]
@@ -120,6 +122,14 @@ def _key(kind, r, n):
         return slice(None, None, -1 - (r % 2))
     if kind == "list":
         return [(r + 5 * i) % n for i in range(1 + r % 4)]
+    if kind == "npint":      # what np.argmax / iterating over np.arange hands out
+        return np.int64(r % n)
+    if kind == "npneg":
+        return np.int32(-(r % n) - 1)
+    if kind == "nparray":
+        return np.array([(r + 5 * i) % n for i in range(1 + r % 4)], dtype=np.int64)
+    if kind == "range":
+        return range(r % n, n, 1 + r % 2)
     m = np.array([(r >> i) & 1 == 1 for i in range(n)])
     m[r % n] = True
     return m
